@@ -1,0 +1,22 @@
+//go:build verif
+
+// Contracts for the verification machinery in /verif (govc). Comment-only.
+// C03/C02: every record sent to a query iterator passed the permission check with the
+// flags the query was started with (guard obligations).
+
+package hashmap
+
+//@ func (*HashMap).queryExecutor
+//@   requires hm != nil && queryIter != nil && q != nil
+//@   nopanic off
+//@   modifies *
+//@   ghost var ok bool = false
+//@   ghost var m0 *record.Meta = nil
+//@   ghost var l0 bool = false
+//@   ghost var i0 bool = false
+//@   at after (*Meta).CheckPermission ghost ok = ret0
+//@   at after (*Meta).CheckPermission ghost m0 = arg0
+//@   at after (*Meta).CheckPermission ghost l0 = arg1
+//@   at after (*Meta).CheckPermission ghost i0 = arg2
+//@   at send Next assert ok && l0 == local && i0 == internal && m0 == metaOf(value)
+//@   loop 0 invariant true
